@@ -44,7 +44,6 @@ def WireOut.shows (w : WireOut) (exp : Int) : Bool :=
 structure ExpCfg where
   isExpired : Site          -- treasure.IsExpired
   shift : Site              -- beacon.ShiftExpired
-  select : Site             -- beacon.SelectExpiredForPatch
   selectCap : Site          -- beacon.SelectExpiredForPatchWithCap
   coldBuildNe0 : Bool       -- swamp.treasuresForBeacon keeps only `exp != 0`
   addBeaconsNe0 : Bool      -- swamp.addTreasureToBeacons
@@ -62,7 +61,7 @@ def Site.good (s : Site) : Bool := s.guard0 && s.strict
 
 /-- the comparison sites and membership guards are the documented ones -/
 def ExpCfg.good (c : ExpCfg) : Bool :=
-  c.isExpired.good && c.shift.good && c.select.good && c.selectCap.good && c.coldBuildNe0 && c.addBeaconsNe0 &&
+  c.isExpired.good && c.shift.good && c.selectCap.good && c.coldBuildNe0 && c.addBeaconsNe0 &&
   c.saveBranchNe0 && c.reindexNe0 && c.patchReaddNe0 && c.filterGuard0 && c.isEmptyEq0 && c.setZeroNone && c.clearWins
 
 /-- membership of a record in the expiration index at a site with / without the zero filter -/
@@ -89,15 +88,15 @@ theorem site_good_eval (s : Site) (h : s.good = true) (exp now : Int) : s.eval e
     IS_EMPTY is `exp = 0`; clearing wins over setting. -/
 theorem paths_agree (c : ExpCfg) (h : c.good = true) (exp now : Int) :
     c.isExpired.eval exp now = expired exp now ∧ c.shift.eval exp now = expired exp now ∧
-    c.select.eval exp now = expired exp now ∧ c.selectCap.eval exp now = expired exp now ∧
+    c.selectCap.eval exp now = expired exp now ∧
     filterLt c.filterGuard0 exp now = expired exp now ∧
     member c.coldBuildNe0 exp = decide (exp ≠ 0) ∧ member c.addBeaconsNe0 exp = decide (exp ≠ 0) ∧
     member c.saveBranchNe0 exp = decide (exp ≠ 0) ∧ member c.reindexNe0 exp = decide (exp ≠ 0) ∧
     member c.patchReaddNe0 exp = decide (exp ≠ 0) ∧
     (∀ set old, patchExp c.clearWins true set old = 0) := by
   simp only [ExpCfg.good, Bool.and_eq_true] at h
-  obtain ⟨⟨⟨⟨⟨⟨⟨⟨⟨⟨⟨⟨h1, h2⟩, h3⟩, h4⟩, h5⟩, h6⟩, h7⟩, h8⟩, h9⟩, h10⟩, h11⟩, h12⟩, h13⟩ := h
-  refine ⟨site_good_eval _ h1 _ _, site_good_eval _ h2 _ _, site_good_eval _ h3 _ _, site_good_eval _ h4 _ _,
+  obtain ⟨⟨⟨⟨⟨⟨⟨⟨⟨⟨⟨h1, h2⟩, h4⟩, h5⟩, h6⟩, h7⟩, h8⟩, h9⟩, h10⟩, h11⟩, h12⟩, h13⟩ := h
+  refine ⟨site_good_eval _ h1 _ _, site_good_eval _ h2 _ _, site_good_eval _ h4 _ _,
     by simp [filterLt, expired, h10], by simp [member, h5], by simp [member, h6], by simp [member, h7],
     by simp [member, h8], by simp [member, h9], fun set old => by simp [patchExp, h13]⟩
 
